@@ -39,6 +39,7 @@ const (
 	tagPacket             // consumes packet-level seeds' mutants
 	tagWide               // one variant per decoder (contiguous reader): run on the largest string family
 	tagB3                 // the byte-level decoders that are run on every 3-byte string in the quick tier
+	tagLong               // entries of the long-stream family only (streamlong.go): never part of "all entries"
 )
 
 type entry struct {
@@ -242,6 +243,15 @@ var chunkings = []struct {
 	}},
 }
 
+// A stream is cut into frames and every frame is handed to a consumer (link service / packet
+// decoder) whose input-independent cost (packet object, parsing context, error value) is paid once
+// per FRAME, however small the frame: on the stream entries that include a consumer the allocation
+// bound is therefore 64 bytes per input byte + perFrameAlloc per delivered frame. (Without it a
+// long stream of 2-byte blocks - 150 000 frames in 300 kB - is charged to the framing code.)
+const perFrameAlloc = 1024
+
+var lastFrames int // frames the last stream entry call delivered
+
 // noProgress: stream framing that hands out more frames than the stream has bytes is delivering
 // frames without consuming input (an empty frame leaves every offset unchanged, so the same
 // frame is produced again and again): a livelock, reported without waiting for the watchdog.
@@ -441,11 +451,12 @@ func buildEntries() {
 				}
 				return sigOK | uint32(frames)<<8
 			}})
-		add(entry{name: "face.readTlvStream+linkservice/" + ch.name, tags: tagHeavy | tagPacket, own: -1, slack: func(int) uint64 { return 16384 },
+		add(entry{name: "face.readTlvStream+linkservice/" + ch.name, tags: tagHeavy | tagPacket, own: -1, slack: func(int) uint64 { return 16384 + uint64(lastFrames)*perFrameAlloc },
 			run: func(b []byte) uint32 {
 				setThreads(2)
 				l := fwface.VerifC04NewLinkService(7, false, 8800)
 				frames := 0
+				defer func() { lastFrames = frames }()
 				err := fwface.VerifC04ReadTlvStream(&chunkReader{data: b, chunk: ch.f(len(b))}, func(f []byte) { frames++; noProgress(frames, len(f), len(b)); fwface.VerifC04Handle(l, f) })
 				if err != nil {
 					return sigOther | uint32(queued())<<8
@@ -453,9 +464,10 @@ func buildEntries() {
 				return sigOK | uint32(queued())<<8
 			}})
 		// client side stream face (std engine)
-		add(entry{name: "engine.StreamFace.Run/" + ch.name, tags: tagHeavy | tagPacket, own: -1, slack: func(int) uint64 { return 4096 + 1024 },
+		add(entry{name: "engine.StreamFace.Run/" + ch.name, tags: tagHeavy | tagPacket, own: -1, slack: func(int) uint64 { return 4096 + 1024 + uint64(lastFrames)*perFrameAlloc },
 			run: func(b []byte) uint32 {
 				pk := 0
+				defer func() { lastFrames = pk }()
 				stdface.VerifC04RunStream(&scriptConn{chunkReader{data: b, chunk: ch.f(len(b))}},
 					func(r enc.ParseReader) error {
 						pk++
@@ -482,4 +494,6 @@ func buildEntries() {
 		add(entry{name: "face.NDNLPLinkService.handleIncomingFrame/" + v.name, tags: tagHeavy | tagPacket, own: -1, slack: func(n int) uint64 { return 1024 },
 			run: func(b []byte) uint32 { return runLS(v.name, v.local, v.n, b) }})
 	}
+	// (5) stream framing on long streams (streamlong.go)
+	addStreamLongEntries(add)
 }
